@@ -1,5 +1,6 @@
 import PEval.Lemmas.LookupArith
 import PEval.Lemmas.LookupTable
+import PEval.Lemmas.LookupTotal
 import PEval.Gen.LookupTables
 import Mathlib.Tactic.FieldSimp
 /-!
@@ -780,5 +781,274 @@ theorem interpList_code_between_linear (a0 a1 a2 b0 b1 b2 t1 t2 t : ℚ) (h1 : t
   ring
 
 end Arith
+
+/-! ## success companions for the interpolating branch
+
+`gating_both` ends in `match interpolateFrames b a t`; `interp_reaches`, `interp_time_eq_query`, … assume the
+`.ok (.interp f)` outcome.  Here the outcome is PROVED for well-formed neighbours (`Frame.WellFormed`: what the loader
+guarantees — an ego→map transform is registered, every object is in `base_link` or `map`; `Frame.Loaded` is the
+stronger "one frame id per frame"), the `AssertionError` and `ZeroDivisionError` exits are shown unreachable from the
+scan, and the error exits of a direct call are characterised (`interp_errors_iff`). -/
+section Success
+
+/-- both neighbours within tolerance and well-formed: the lookup returns the interpolated frame, explicitly;
+the neighbours bracket the query (`b.time ≤ t < a.time`) -/
+theorem gating_both_ok (fs : List Frame) (t thr : Int) (b a : Frame)
+    (hb : (neighbours fs t).before = some b) (ha : (neighbours fs t).after = some a)
+    (hdb : t - b.time ≤ thr) (hda : a.time - t ≤ thr) (wb : b.WellFormed) (wa : a.WellFormed) :
+    ∃ eb ea, b.ego = some eb ∧ a.ego = some ea ∧ b.time ≤ t ∧ t < a.time ∧
+      getInterpolated fs t thr = .ok (.interp (interpResult b a eb ea t)) := by
+  obtain ⟨eb, heb⟩ := Option.isSome_iff_exists.1 wb.1
+  obtain ⟨ea, hea⟩ := Option.isSome_iff_exists.1 wa.1
+  obtain ⟨_, h1, _⟩ := (neighbours_bounds fs t).1 b hb
+  obtain ⟨_, h2, _⟩ := (neighbours_bounds fs t).2 a ha
+  refine ⟨eb, ea, heb, hea, h1, h2, ?_⟩
+  rw [gating_both fs t thr b a hb ha hdb hda, interpolateFrames_total heb hea h1 h2 wb.2 wa.2]
+
+/-- the loader's frames are well-formed (one frame id per frame, not `other`) -/
+theorem loaded_wellFormed {f : Frame} (h : f.Loaded) : f.WellFormed := h.wellFormed
+
+/-- the lookup itself never reaches the assertion `t1 <= t <= t2` nor the division by `t2 - t1 = 0`: on ANY frame list
+(sorted or not) an error of the interpolating lookup is a missing ego pose (`KeyError`) or an object outside
+`base_link` / `map` (`NotImplementedError`) -/
+theorem getInterpolated_errors (fs : List Frame) (t thr : Int) (k : Err)
+    (h : getInterpolated fs t thr = .error k) :
+    ∃ b a, (neighbours fs t).before = some b ∧ (neighbours fs t).after = some a ∧
+      ((b.ego = none ∨ a.ego = none) ∧ k = "KeyError" ∨
+       (b.ego ≠ none ∧ a.ego ≠ none ∧ (∃ o ∈ b.objs ++ a.objs, o.frame = .other) ∧ k = "NotImplementedError")) := by
+  rw [gating] at h
+  cases hgb : gate thr (neighbours fs t).dtBefore (neighbours fs t).before with
+  | none =>
+    rw [hgb] at h
+    cases hga : gate thr (neighbours fs t).dtAfter (neighbours fs t).after <;> rw [hga] at h <;> cases h
+  | some b =>
+    rw [hgb] at h
+    cases hga : gate thr (neighbours fs t).dtAfter (neighbours fs t).after with
+    | none => rw [hga] at h; cases h
+    | some a =>
+      rw [hga] at h
+      simp only at h
+      have hb := (gate_some hgb).1
+      have ha := (gate_some hga).1
+      obtain ⟨_, h1, _⟩ := (neighbours_bounds fs t).1 b hb
+      obtain ⟨_, h2, _⟩ := (neighbours_bounds fs t).2 a ha
+      refine ⟨b, a, hb, ha, ?_⟩
+      unfold interpolateFrames at h
+      cases heb : b.ego with
+      | none => rw [heb] at h; simp only at h; left; exact ⟨Or.inl rfl, by cases h; rfl⟩
+      | some eb =>
+        cases hea : a.ego with
+        | none => rw [heb, hea] at h; simp only at h; left; exact ⟨Or.inr rfl, by cases h; rfl⟩
+        | some ea =>
+          right
+          rw [heb, hea] at h
+          simp only at h
+          rw [if_neg (by omega), if_neg (by omega)] at h
+          refine ⟨by simp, by simp, ?_⟩
+          cases hgl : toGlobalList eb b.objs with
+          | error k' =>
+            rw [hgl] at h
+            simp only at h
+            have hex : ∃ o ∈ b.objs, o.frame = .other := by
+              by_contra hno
+              rw [toGlobalList_of_frames eb b.objs (fun o ho hf => hno ⟨o, ho, hf⟩)] at hgl
+              cases hgl
+            obtain ⟨o, ho, hf⟩ := hex
+            refine ⟨⟨o, List.mem_append_left _ ho, hf⟩, ?_⟩
+            simp only [Except.error.injEq] at h
+            subst h
+            exact toGlobalList_error_kind eb b.objs _ hgl
+          | ok gb =>
+            rw [hgl] at h
+            simp only at h
+            cases hgl2 : toGlobalList ea a.objs with
+            | error k' =>
+              rw [hgl2] at h
+              simp only at h
+              have hex : ∃ o ∈ a.objs, o.frame = .other := by
+                by_contra hno
+                rw [toGlobalList_of_frames ea a.objs (fun o ho hf => hno ⟨o, ho, hf⟩)] at hgl2
+                cases hgl2
+              obtain ⟨o, ho, hf⟩ := hex
+              refine ⟨⟨o, List.mem_append_right _ ho, hf⟩, ?_⟩
+              simp only [Except.error.injEq] at h
+              subst h
+              exact toGlobalList_error_kind ea a.objs _ hgl2
+            | ok ga => rw [hgl2] at h; cases h
+
+/-- error exits of a DIRECT call of `interpolate_ground_truth_frames`, exactly -/
+theorem interp_errors_iff (b a : Frame) (t : Int) :
+    (∃ k, interpolateFrames b a t = .error k) ↔
+      (b.ego = none ∨ a.ego = none ∨ ¬ (b.time ≤ t ∧ t ≤ a.time) ∨ a.time = b.time ∨
+        (∃ o ∈ b.objs ++ a.objs, o.frame = .other)) := interpolateFrames_error_iff
+
+/-- THE CLAUSE, end to end: both neighbours within tolerance and well-formed ⇒ the lookup returns a frame stamped
+with exactly the query time in which every object of the earlier neighbour that has a partner (same uuid) in the
+later one lies on the straight segment between its two MAP-FRAME poses at the proportional time `α`
+(`α (t₂ − t₁) = t − t₁`, `0 ≤ α < 1`), with the heading on the shortest arc -/
+theorem interp_success_on_segment (fs : List Frame) (t thr : Int) (b a : Frame)
+    (hb : (neighbours fs t).before = some b) (ha : (neighbours fs t).after = some a)
+    (hdb : t - b.time ≤ thr) (hda : a.time - t ≤ thr) (wb : b.WellFormed) (wa : a.WellFormed) :
+    ∃ f eb ea, getInterpolated fs t thr = .ok (.interp f) ∧ f.time = t ∧ f.baseId = b.id ∧
+      b.ego = some eb ∧ a.ego = some ea ∧
+      ∀ (i : Nat) (hi : i < b.objs.length) (o2 : Obj),
+        (a.objs.map (globalOf ea)).find? (fun o => b.objs[i].uuid == o.uuid) = some o2 →
+        ∃ r α, f.objs[i]? = some r ∧ α = alpha b.time a.time t ∧ 0 ≤ α ∧ α < 1 ∧
+          α * ((a.time : ℚ) - (b.time : ℚ)) = (t : ℚ) - (b.time : ℚ) ∧
+          r.pos = Vec3.lerp (globalOf eb b.objs[i]).pos o2.pos α ∧
+          (min (globalOf eb b.objs[i]).pos.x o2.pos.x ≤ r.pos.x ∧ r.pos.x ≤ max (globalOf eb b.objs[i]).pos.x o2.pos.x) ∧
+          (min (globalOf eb b.objs[i]).pos.y o2.pos.y ≤ r.pos.y ∧ r.pos.y ≤ max (globalOf eb b.objs[i]).pos.y o2.pos.y) ∧
+          (min (globalOf eb b.objs[i]).pos.z o2.pos.z ≤ r.pos.z ∧ r.pos.z ≤ max (globalOf eb b.objs[i]).pos.z o2.pos.z) ∧
+          r.tau = (globalOf eb b.objs[i]).tau + α * arc (globalOf eb b.objs[i]).tau o2.tau ∧
+          |α * arc (globalOf eb b.objs[i]).tau o2.tau| ≤ |arc (globalOf eb b.objs[i]).tau o2.tau| ∧
+          r.time = t ∧ r.uuid = b.objs[i].uuid ∧ r.id = b.objs[i].id ∧ r.size = b.objs[i].size ∧ r.frame = .map ∧
+          o2 ∈ a.objs.map (globalOf ea) := by
+  obtain ⟨eb, ea, heb, hea, h1, h2, hres⟩ := gating_both_ok fs t thr b a hb ha hdb hda wb wa
+  refine ⟨interpResult b a eb ea t, eb, ea, hres, rfl, rfl, heb, hea, ?_⟩
+  intro i hi o2 hfind
+  have hi' : i < (b.objs.map (globalOf eb)).length := by simpa using hi
+  have hget : (b.objs.map (globalOf eb))[i] = globalOf eb b.objs[i] := by simp
+  have hfind' : (a.objs.map (globalOf ea)).find? (fun o => (b.objs.map (globalOf eb))[i].uuid == o.uuid) = some o2 := by
+    rw [hget, globalOf_uuid]; exact hfind
+  obtain ⟨r, α, hr, hα, hmem, _, hu, h0, _, hmul, hx, hy, hz, bx, by', bz, htau, _, hsize, htime, hframe, hid⟩ :=
+    interp_on_segment (b.objs.map (globalOf eb)) (a.objs.map (globalOf ea)) b.time a.time t h1 (by omega) (by omega)
+      i hi' o2 hfind'
+  rw [hget] at hx hy hz bx by' bz htau hu hsize hframe hid
+  have hlt : α < 1 := by rw [hα]; exact alpha_lt_one h2 (by omega)
+  have h01 : α ≤ 1 := le_of_lt hlt
+  refine ⟨r, α, hr, hα, h0, hlt, hmul, ?_, bx, by', bz, htau, abs_mul_le_of_unit h0 h01, htime, ?_, ?_, ?_, ?_, hmem⟩
+  · apply Vec3.ext'
+    · rw [hx, Vec3.lerp_x]
+    · rw [hy, Vec3.lerp_y]
+    · rw [hz, Vec3.lerp_z]
+  · rw [hu, globalOf_uuid]
+  · rw [hid]; unfold globalOf; cases b.objs[i].frame <;> rfl
+  · rw [hsize]; unfold globalOf; cases b.objs[i].frame <;> rfl
+  · rw [hframe]; exact globalOf_frame_map (wb.2 _ (List.getElem_mem hi))
+
+/-- "reproducing a neighbour exactly at that neighbour's own timestamp", stated with its caveats.  Strictly
+time-ordered frames, query exactly on a frame `g` whose successor `a` is within tolerance (`thr ≥ 0`), both
+well-formed.  The lookup INTERPOLATES (α = 0) and returns a frame with `g`'s time, id and ego pose whose first
+`|g.objs|` objects are `g`'s objects, in order, each with the position, heading, shape, uuid, id of that object
+CONVERTED TO THE MAP FRAME by `g`'s ego pose (`globalOf`): identical to the loaded object when it is a map-frame
+object, and `frame = map`, `pos = ego·pos`, `τ = ego.τ + τ` when it is a `base_link` object (the conversion back to
+`base_link` is commented out in the code).  Velocity: kept unless the partner lacks one.  After them come the later
+frame's objects whose uuid `g` lacks (kept, with their own later time stamps). -/
+theorem interp_at_own_timestamp (fs : List Frame) (g a : Frame) (thr : Int)
+    (hs : fs.Pairwise (fun x y => x.time < y.time)) (hg : g ∈ fs) (hthr : 0 ≤ thr)
+    (ha : (neighbours fs g.time).after = some a) (hda : a.time - g.time ≤ thr)
+    (wg : g.WellFormed) (wa : a.WellFormed) :
+    ∃ f eg ea, getInterpolated fs g.time thr = .ok (.interp f) ∧ g.ego = some eg ∧ a.ego = some ea ∧
+      f.time = g.time ∧ f.baseId = g.id ∧ f.egoTrans = eg.trans ∧ f.egoTau = eg.tau ∧
+      f.objs.length = g.objs.length + (secondPass (g.objs.map (·.uuid)) (a.objs.map (globalOf ea))).length ∧
+      f.objs.drop g.objs.length = secondPass (g.objs.map (·.uuid)) (a.objs.map (globalOf ea)) ∧
+      ∀ (i : Nat) (hi : i < g.objs.length), ∃ r, f.objs[i]? = some r ∧
+        r.pos = (globalOf eg g.objs[i]).pos ∧ r.tau = (globalOf eg g.objs[i]).tau ∧ r.frame = .map ∧
+        r.size = g.objs[i].size ∧ r.uuid = g.objs[i].uuid ∧ r.id = g.objs[i].id ∧
+        (g.objs[i].frame = .map → r.pos = g.objs[i].pos ∧ r.tau = g.objs[i].tau) ∧
+        (g.objs[i].frame = .baseLink → r.pos = eg.apply g.objs[i].pos ∧ r.tau = eg.tau + g.objs[i].tau) ∧
+        ((∀ o ∈ a.objs, o.uuid ≠ g.objs[i].uuid) → r = globalOf eg g.objs[i]) ∧
+        (∀ o2, (a.objs.map (globalOf ea)).find? (fun o => g.objs[i].uuid == o.uuid) = some o2 →
+          r.time = g.time ∧ (o2.vel.isSome → r.vel = g.objs[i].vel) ∧ (o2.vel = none → r.vel = none)) := by
+  obtain ⟨hb, _, _, _⟩ := query_on_frame fs g thr hs hg
+  obtain ⟨eg, ea, heg, hea, _, hlt, hres⟩ :=
+    gating_both_ok fs g.time thr g a hb ha (by omega) hda wg wa
+  have hα : alpha g.time a.time g.time = 0 := alpha_self_left _ _
+  refine ⟨interpResult g a eg ea g.time, eg, ea, hres, heg, hea, rfl, rfl, ?_, ?_, ?_, ?_, ?_⟩
+  · show Vec3.lerp eg.trans ea.trans (alpha g.time a.time g.time) = eg.trans
+    rw [hα, Vec3.lerp_zero]
+  · show eg.tau + alpha g.time a.time g.time * arc eg.tau ea.tau = eg.tau
+    rw [hα]; ring
+  · have := (interp_objects (g.objs.map (globalOf eg)) (a.objs.map (globalOf ea)) g.time a.time g.time).1
+    simpa [interpResult, globalOf_uuid, Function.comp_def] using this
+  · have := (interp_objects (g.objs.map (globalOf eg)) (a.objs.map (globalOf ea)) g.time a.time g.time).2.2
+    simpa [interpResult, globalOf_uuid, Function.comp_def] using this
+  · intro i hi
+    have hi' : i < (g.objs.map (globalOf eg)).length := by simpa using hi
+    have hget : (g.objs.map (globalOf eg))[i] = globalOf eg g.objs[i] := by simp
+    have hstep := (interp_objects (g.objs.map (globalOf eg)) (a.objs.map (globalOf ea)) g.time a.time g.time).2.1 i hi'
+    rw [hget] at hstep
+    have hne := wg.2 _ (List.getElem_mem hi)
+    have hfm : (globalOf eg g.objs[i]).frame = .map := globalOf_frame_map hne
+    have hsz : (globalOf eg g.objs[i]).size = g.objs[i].size := by unfold globalOf; cases g.objs[i].frame <;> rfl
+    have hid : (globalOf eg g.objs[i]).id = g.objs[i].id := by unfold globalOf; cases g.objs[i].frame <;> rfl
+    have hvel : (globalOf eg g.objs[i]).vel = g.objs[i].vel := by unfold globalOf; cases g.objs[i].frame <;> rfl
+    have hmapcase : g.objs[i].frame = .map →
+        (globalOf eg g.objs[i]).pos = g.objs[i].pos ∧ (globalOf eg g.objs[i]).tau = g.objs[i].tau := by
+      intro hf; rw [globalOf_map_frame hf]; exact ⟨rfl, rfl⟩
+    have hblcase : g.objs[i].frame = .baseLink →
+        (globalOf eg g.objs[i]).pos = eg.apply g.objs[i].pos ∧ (globalOf eg g.objs[i]).tau = eg.tau + g.objs[i].tau := by
+      intro hf; rw [globalOf_baseLink hf]; exact ⟨rfl, rfl⟩
+    cases hfind : (a.objs.map (globalOf ea)).find? (fun o => (globalOf eg g.objs[i]).uuid == o.uuid) with
+    | none =>
+      have hr : stepFirst (a.objs.map (globalOf ea)) g.time a.time g.time (globalOf eg g.objs[i]) = globalOf eg g.objs[i] := by
+        unfold stepFirst; rw [hfind]
+      rw [hr] at hstep
+      refine ⟨globalOf eg g.objs[i], hstep, rfl, rfl, hfm, hsz, globalOf_uuid _ _, hid, hmapcase, hblcase,
+        fun _ => rfl, ?_⟩
+      intro o2 h2
+      rw [globalOf_uuid] at hfind
+      rw [hfind] at h2; cases h2
+    | some o2 =>
+      have hr := stepFirst_found hfind (t1 := g.time) (t2 := a.time) (t := g.time)
+      rw [hr] at hstep
+      obtain ⟨_, hp, ht, hsize, htime, hv⟩ := interp_at_neighbour (globalOf eg g.objs[i]) o2 g.time a.time
+      refine ⟨_, hstep, hp, ht, hfm, by rw [hsize, hsz], by rw [interpObj_uuid, globalOf_uuid], hid,
+        fun hf => by rw [hp, ht]; exact hmapcase hf, fun hf => by rw [hp, ht]; exact hblcase hf, ?_, ?_⟩
+      · intro hno
+        exfalso
+        have hm := List.mem_of_find?_eq_some hfind
+        obtain ⟨o, ho, rfl⟩ := List.mem_map.1 hm
+        have hu : (globalOf eg g.objs[i]).uuid = (globalOf ea o).uuid := by simpa using List.find?_some hfind
+        rw [globalOf_uuid, globalOf_uuid] at hu
+        exact hno o ho hu.symm
+      · intro o2' h2
+        rw [globalOf_uuid] at hfind
+        rw [hfind] at h2
+        cases h2
+        refine ⟨htime, fun hs2 => by rw [hv hs2, hvel], ?_⟩
+        intro hnone
+        show interpVel _ (globalOf eg g.objs[i]).vel o2.vel = none
+        rw [hnone]
+        cases (globalOf eg g.objs[i]).vel <;> rfl
+
+/-- the caveat is real: `base_link` dataset, ego pose of the middle frame = quarter turn + 10 m.  A query ON that frame
+(tolerance 1000) returns its object 3 (loaded at (0,0), heading 0, `base_link`) at (10,0), heading 1/2, in `map` -/
+theorem interp_at_own_timestamp_not_verbatim :
+    fr1 ∈ [fr0, fr1, fr2] ∧ (fr1.objs.map (fun o => (o.id, o.frame, o.pos, o.tau))) =
+      [(3, FrameId.baseLink, v 0 0 0, 0), (4, FrameId.baseLink, v 3 0 0, -3/4)] ∧
+    (getInterpolated [fr0, fr1, fr2] 2000 1000).toOption.map
+      (fun o => match o with
+        | .interp f => (f.baseId, f.objs.map (fun o => (o.id, o.frame, o.pos, o.tau)))
+        | _ => (99, [])) =
+      some (1, [(3, FrameId.map, v 10 0 0, 1/2), (4, FrameId.map, v 10 3 0, -1/4)]) :=
+  ⟨by decide +kernel, by decide +kernel, by decide +kernel⟩
+
+/-- non-vacuity of `gating_both_ok` / `interp_success_on_segment` / `interp_at_own_timestamp`: the hypotheses hold on
+the example list (query 1500 between fr0 and fr1, tolerance 500; query 2000 on fr1, successor fr2) -/
+example : (neighbours [fr0, fr1, fr2] 1500).before = some fr0 ∧ (neighbours [fr0, fr1, fr2] 1500).after = some fr1 ∧
+    (1500 : Int) - fr0.time ≤ 500 ∧ fr1.time - 1500 ≤ 500 ∧ fr0.Loaded ∧ fr1.Loaded ∧ fr2.Loaded ∧
+    (neighbours [fr0, fr1, fr2] fr1.time).after = some fr2 ∧ fr2.time - fr1.time ≤ 1000 ∧
+    (fr1.objs.map (globalOf e1)).find? (fun o => fr0.objs[0].uuid == o.uuid) = some (globalOf e1 (ob 4 7 2000 3 0 (-3/4))) :=
+  ⟨by decide +kernel, by decide +kernel, by decide, by decide, ⟨rfl, .baseLink, by decide, by decide +kernel⟩,
+    ⟨rfl, .baseLink, by decide, by decide +kernel⟩, ⟨rfl, .baseLink, by decide, by decide +kernel⟩,
+    by decide +kernel, by decide, by decide +kernel⟩
+
+/-- A DEFECTIVE variant of `interpolate_ground_truth_frames` asserting `t1 < t` (strict) raises for a query on a
+frame: the hypotheses of `interpolateFrames_total` hold (`fr1.time ≤ 2000 < fr2.time`, poses, frames) and its
+conclusion fails for the variant -/
+def interpolateFrames_strictAssert (b a : Frame) (t : Int) : Except Err InterpFrame :=
+  if ¬ (b.time < t ∧ t ≤ a.time) then .error "AssertionError" else interpolateFrames b a t
+
+example : fr1.ego = some e1 ∧ fr2.ego = some e0 ∧ fr1.time ≤ 2000 ∧ (2000 : Int) < fr2.time ∧
+    (∀ o ∈ fr1.objs, o.frame ≠ .other) ∧ (∀ o ∈ fr2.objs, o.frame ≠ .other) ∧
+    interpolateFrames fr1 fr2 2000 = .ok (interpResult fr1 fr2 e1 e0 2000) ∧
+    interpolateFrames_strictAssert fr1 fr2 2000 = .error "AssertionError" := by decide +kernel
+
+/-- a frame list on which the well-formedness matters: without the ego pose of the later neighbour the lookup raises
+`KeyError` (so `gating_both_ok` needs `WellFormed`) -/
+example : getInterpolated [fr0, { fr1 with ego := none }, fr2] 1500 500 = .error "KeyError" := by decide +kernel
+
+end Success
 
 end PEval.C17
